@@ -27,6 +27,7 @@ class Run:
         self.notes = []        # monitor verdict objects (violations etc.)
         self.data = {}         # free storage for monitors
         self.depth = 0
+        self.hook_errors = []  # exceptions raised inside monitors
 
     def on(self, event, fn):
         self.hooks.setdefault(event, []).append(fn)
@@ -34,7 +35,12 @@ class Run:
     def emit(self, event, **kw):
         self.counts[event] += 1
         for fn in self.hooks.get(event, ()):
-            fn(self, **kw)
+            try:
+                fn(self, **kw)
+            except Exception:  # noqa: BLE001 - a monitor must never alter
+                import traceback  # the run it observes; reported afterwards
+                if len(self.hook_errors) < 3:
+                    self.hook_errors.append(traceback.format_exc()[-1500:])
 
     def note(self, prop, clause, msg, **witness):
         self.notes.append(
